@@ -30,7 +30,6 @@ type deadlineSpec struct {
 	exceptions map[string]map[string]string
 }
 
-
 // deadlineRule checks every store to spec.field in package server.
 func deadlineRule(p *core.Prog, r *core.Report, sp deadlineSpec) {
 	minute := fmt.Sprint(mustConst(p, r, "protocol", "TIMEOUT_FLAG_MINUTE_TIME"))
@@ -358,7 +357,7 @@ func slotRule(p *core.Prog, r *core.Report, rule, fnName, check, deadline, count
 				ok = true
 			case strings.HasPrefix(slot, "("+ck+" + int64("+lk+"."+counter+")"):
 				ok = true
-			case slot == dl && (x.Passed(ck+" <= "+dl)):
+			case slot == dl && (x.Passed(ck + " <= " + dl)):
 				ok = true
 			}
 			if ok {
@@ -401,7 +400,9 @@ func c05R4(p *core.Prog, r *core.Report) {
 			continue
 		}
 		ex := core.NewExplorer(p, core.Hooks{
-			Track: func(x *core.X, a core.Atom) bool { return strings.HasSuffix(core.Plain(a.R), ".Timeout") || strings.HasSuffix(core.Plain(a.L), ".Timeout") },
+			Track: func(x *core.X, a core.Atom) bool {
+				return strings.HasSuffix(core.Plain(a.R), ".Timeout") || strings.HasSuffix(core.Plain(a.L), ".Timeout")
+			},
 			Instr: func(x *core.X) {
 				if !x.Top() {
 					return
@@ -454,8 +455,8 @@ func checkC06(p *core.Prog, r *core.Report) {
 		exceptions: map[string]map[string]string{
 			"server.NewLock":                     {"zero": "constructor; AddLock sets the deadline at grant time"},
 			"server.(*LockManager).GetOrNewLock": {"zero": "not granted yet; AddLock sets the deadline at grant time"},
-			"server.(*LockDB).AddExpried":         {"clamp-to-sweeper": "raises a stale deadline to the sweeper's position (only ever later)"},
-			"server.(*LockDB).doExpried":          {"now+amount": "keep-alive re-arm (keeplive flag is outside the claimed flag set)", "now+30": "follower waits for the leader's record (C10-R4)"},
+			"server.(*LockDB).AddExpried":        {"clamp-to-sweeper": "raises a stale deadline to the sweeper's position (only ever later)"},
+			"server.(*LockDB).doExpried":         {"now+amount": "keep-alive re-arm (keeplive flag is outside the claimed flag set)", "now+30": "follower waits for the leader's record (C10-R4)"},
 		}})
 	r.Rule("C06/R1", "every store to Lock.expriedTime is start + E*unit + 1 with matching unit flags, or the unlimited sentinel", 6)
 	r.Rule("C06/R2", "never-early guard in checkTimeExpried; long table swept Len() times before retirement", 3)
